@@ -46,6 +46,7 @@ type MutexState struct {
 
 // Point records one scheduling point of an execution.
 type PointRec struct {
+	Key                 uint64   // hash of the global state at this point (only if Exec.StateFn is set)
 	Thread              int      // thread that was running before this point (-1 at the beginning)
 	Enabled             []int    // enabled threads in canonical order
 	Chosen              int      // index into Enabled
@@ -86,6 +87,7 @@ type thread struct {
 	loc     int
 	vc      []uint32
 	started bool
+	hash    uint64 // rolling hash of everything this thread has done and observed
 }
 
 type accessState struct {
@@ -116,6 +118,32 @@ type Exec struct {
 	MaxSteps int
 	prefix   []int
 	raceSeen map[string]bool
+	stateFn  func() uint64
+}
+
+// StateFn, when non-nil, is installed into the next execution: it returns a hash of the shared state
+// that the harness knows to be complete (used for state-caching exploration).
+var StateFn func() uint64
+
+// LocStateFn, when non-nil, returns a hash of exactly the part of the shared state that a plain read
+// of (obj, loc) can observe; without it a read is assumed to observe the whole shared state (sound but
+// prevents most state merging).
+var LocStateFn func(obj any, loc int) uint64
+
+func mix(h, v uint64) uint64 {
+	h ^= v + 0x9e3779b97f4a7c15 + (h << 6) + (h >> 2)
+	h *= 0xff51afd7ed558ccd
+	return h ^ (h >> 33)
+}
+
+// Observe mixes a value the running thread has just read (e.g. the result of an atomic load) into its
+// history hash.
+func (e *Exec) Observe(v uint64) {
+	if e.aborted || e.current < 0 {
+		return
+	}
+	t := e.threads[e.current]
+	t.hash = mix(t.hash, v)
 }
 
 var (
@@ -149,6 +177,7 @@ func Run(prefix []int, bodies []func(), trace bool, maxSteps int) *Result {
 		prefix:   prefix,
 		current:  -1,
 		raceSeen: map[string]bool{},
+		stateFn:  StateFn,
 	}
 	n := len(bodies)
 	for i := range bodies {
@@ -254,6 +283,16 @@ func (e *Exec) loop() {
 			}
 		}
 		rec := PointRec{Thread: e.current, Enabled: en, Chosen: idx, RunningStillEnabled: runningEnabled}
+		if e.stateFn != nil {
+			k := e.stateFn()
+			for _, t := range e.threads {
+				k = mix(k, t.hash)
+				if t.done {
+					k = mix(k, 0xd09e)
+				}
+			}
+			rec.Key = k
+		}
 		if e.Trace {
 			for _, id := range en {
 				rec.Ops = append(rec.Ops, fmt.Sprintf("T%d:%s", id, e.threads[id].kind))
@@ -290,6 +329,19 @@ func (e *Exec) point(kind OpKind, obj any, loc int) *thread {
 	<-t.wake
 	if e.aborted {
 		panic(abortSentinel{})
+	}
+	if e.stateFn != nil {
+		// The thread's local state is a function of its inputs (fixed) and of what it has observed:
+		// the sequence of its operations, the values of its atomic loads (Observe) and, for plain
+		// reads of shared data, the shared state at the time of the read.
+		t.hash = mix(t.hash, uint64(kind)<<8|uint64(loc))
+		if kind == OpRead {
+			if LocStateFn != nil {
+				t.hash = mix(t.hash, LocStateFn(obj, loc))
+			} else {
+				t.hash = mix(t.hash, e.stateFn())
+			}
+		}
 	}
 	return t
 }
